@@ -498,6 +498,11 @@ def judge_operands(cc, res):
         if s == 4 and native == 8:
             changed |= 0xF0            # SDM vol.1 3.4.1.1: 32-bit results are zero-extended to 64 bits
             rule += " + 32-bit write zero-extends to 64 bits"
+        if s in (4, 8):
+            # there are no partial writes of a 32/64-bit general-purpose register: a payload narrower than the register
+            # (pmovmskb, movmskps, pextrb, kmovb ...) is zero-extended to the register width
+            changed |= lsb(s)
+            rule += " + a %d-bit register is always written as a whole" % (s * 8)
         if changed & ~covered:
             viol.append(("byte-mask", "%s (%s): bytes %#x change (%s) but write mask %#x | extend mask %#x cover only %#x" % (
                 loc, X.reg_name(kind, op[2]), changed, rule, info.wmask, info.emask, covered)))
